@@ -19,7 +19,7 @@ def run(ctx):
                         'in_place=False compiles; second compiles of one template are subject to known finding D40']
     behs = ac.dedupe(ac.tlc_behaviours(ctx, 'C07', CALLS, 2,      # thorough: the same bound without the quick-tier constraints, more circuits, deeper sampling
                                       
-                                       simulate=(120, 4) if tier == 'quick' else (3000, 7),
+                                       simulate=(120, 4) if tier == 'quick' else (1200, 6),
                                        extra=['ClearingCompiles'] if tier == 'quick' else [],
                                        circs={'c1', 'c3'} if tier == 'quick' else {'c1', 'c2', 'c3'}))
     pair = ac.tlc_behaviours_pair(ctx, 4)       # depth 5 yields tens of thousands of behaviours (a replay costs ~2 s CPU)
@@ -28,7 +28,7 @@ def run(ctx):
     ctx.notes['deviations_detected_by']['UpdateVarInPlaceWhenPrivate'] = ac.vacuity(ctx, ac.PAIR_CALLS, 'UpdateVarInPlaceWhenPrivate', maxlen=4)
     ctx.notes['deviations_detected_by']['DerivedSharesEdgeDicts'] = ac.vacuity(ctx, ac.PAIR_CALLS, 'DerivedSharesEdgeDicts', maxlen=3)
     behs = [b for b in behs if any(c['a'] in ('update_var', 'update_edge', 'compile_nv') for c in b['calls'])]
-    ac.judge_all(ctx, behs, 'compiled model after overrides', cap=2600 if ctx.tier == "quick" else 8000, always=pair)
+    ac.judge_all(ctx, behs, 'compiled model after overrides', cap=2600 if ctx.tier == "quick" else 4500, always=pair)
     shared_subcircuit(ctx)
     for b in behs[len(behs) // 2: len(behs) // 2 + 2]:
         ctx.sample(dict(calls=b['calls'], expected_units=b['expM'], dev=b['dev']))
